@@ -530,4 +530,267 @@ theorem Step.D_stays {p : Proc N} {prog : List (Instr N)} {e e' : Nat} {old new 
 
 end stepfacts
 
+/-! ## 4. Retirement accounting -/
+
+section accounting
+omit [LT N] [DecidableRel (α := N) (· < ·)]
+
+/-- program indices below `e` that are not hosted in `u` (issued and gone) -/
+def goneIdx (p : Proc N) (u : Util N) (e : Nat) : List Nat :=
+  (List.range e).filter (fun i => decide (i ∉ hostedIdx p u))
+
+/-- program indices sitting unstalled at the output boundary -/
+def outUIdx (outs : List N) (u : Util N) : List Nat :=
+  outs.flatMap (fun n => ((u.get n).filter (fun h => h.st == .U)).map (·.idx))
+
+theorem countOut_eq_length (outs : List N) (u : Util N) : countOut outs u = (outUIdx outs u).length := by
+  unfold countOut outUIdx
+  rw [List.length_flatMap]
+  congr 1
+  apply List.map_congr_left
+  intro n _
+  rw [List.length_map]
+
+theorem mem_hostedIdx {p : Proc N} {u : Util N} {i : Nat} :
+    i ∈ hostedIdx p u ↔ ∃ n ∈ p.allUnits.map (·.name), i ∈ (u.get n).map (·.idx) := by
+  unfold hostedIdx; rw [List.mem_flatMap]
+
+theorem RowBase.mem_hostedIdx {p : Proc N} {e : Nat} {u : Util N} (hb : RowBase p e u) {i : Nat} :
+    i ∈ hostedIdx p u ↔ ∃ n, i ∈ (u.get n).map (·.idx) := by
+  rw [ProcSim.mem_hostedIdx]
+  constructor
+  · rintro ⟨n, _, h⟩; exact ⟨n, h⟩
+  · rintro ⟨n, h⟩
+    refine ⟨n, hb.names n ?_, h⟩
+    intro e0; rw [e0] at h; cases h
+
+theorem mem_goneIdx {p : Proc N} {e : Nat} {u : Util N} (hb : RowBase p e u) {e0 i : Nat} :
+    i ∈ goneIdx p u e0 ↔ i < e0 ∧ ∀ n, i ∉ (u.get n).map (·.idx) := by
+  unfold goneIdx
+  rw [List.mem_filter, List.mem_range, decide_eq_true_eq, hb.mem_hostedIdx]
+  constructor
+  · rintro ⟨h1, h2⟩; exact ⟨h1, fun n hn => h2 ⟨n, hn⟩⟩
+  · rintro ⟨h1, h2⟩; exact ⟨h1, fun ⟨n, hn⟩ => h2 n hn⟩
+
+theorem mem_outUIdx {outs : List N} {u : Util N} {i : Nat} :
+    i ∈ outUIdx outs u ↔ ∃ n ∈ outs, ∃ x ∈ u.get n, x.st = .U ∧ x.idx = i := by
+  unfold outUIdx
+  rw [List.mem_flatMap]
+  constructor
+  · rintro ⟨n, hn, h⟩
+    obtain ⟨x, hx, hxi⟩ := List.mem_map.1 h
+    obtain ⟨hx1, hx2⟩ := List.mem_filter.1 hx
+    exact ⟨n, hn, x, hx1, by simpa using hx2, hxi⟩
+  · rintro ⟨n, hn, x, hx, hxs, hxi⟩
+    exact ⟨n, hn, List.mem_map.2 ⟨x, List.mem_filter.2 ⟨hx, by simp [hxs]⟩, hxi⟩⟩
+
+theorem goneIdx_nodup (p : Proc N) (u : Util N) (e : Nat) : (goneIdx p u e).Nodup :=
+  List.filter_sublist.nodup List.nodup_range
+
+theorem outUIdx_nodup {outs : List N} (ho : outs.Nodup) {u : Util N} (hnd : RowND u) : (outUIdx outs u).Nodup := by
+  unfold outUIdx
+  apply nodup_flatMap_of _ _ ho
+  · intro n _
+    exact ((List.filter_sublist).map _).nodup (hnd.nodup_unit n)
+  · intro n _ n' _ i hi hi'
+    exact hnd.unique_host n n' i (((List.filter_sublist).map _).subset hi) (((List.filter_sublist).map _).subset hi')
+
+/-- the gone and the retiring instructions together: duplicate-free, all below the bound -/
+theorem gone_outU_nodup {p : Proc N} (hn : (p.allUnits.map (·.name)).Nodup) {e : Nat} {u : Util N}
+    (hb : RowBase p e u) (hnd : RowND u) (e0 : Nat) :
+    (goneIdx p u e0 ++ outUIdx p.outBoundary u).Nodup := by
+  rw [List.nodup_append]
+  refine ⟨goneIdx_nodup p u e0, outUIdx_nodup (outBoundary_nodup hn) hnd, ?_⟩
+  intro a ha b hb' hab
+  subst hab
+  obtain ⟨n, _, x, hx, _, hxi⟩ := mem_outUIdx.1 hb'
+  exact ((mem_goneIdx hb).1 ha).2 n (List.mem_map.2 ⟨x, hx, hxi⟩)
+
+/-- one cycle: what was gone or retiring before is gone afterwards -/
+theorem gone_step {p : Proc N} {prog : List (Instr N)} (hn : (p.allUnits.map (·.name)).Nodup)
+    (ho : orderOK p = true) {e e' : Nat} {old new : Util N} (h : Step p prog e old new e')
+    (hb : RowBase p e old) (hnd : RowND old) (hb' : RowBase p e' new) :
+    (goneIdx p old e).length + countOut p.outBoundary old ≤ (goneIdx p new e').length := by
+  rw [countOut_eq_length, ← List.length_append]
+  apply length_le_of_nodup_subset (gone_outU_nodup hn hb hnd e)
+  intro i hi
+  rw [mem_goneIdx hb']
+  rcases List.mem_append.1 hi with hi | hi
+  · obtain ⟨h1, h2⟩ := (mem_goneIdx hb).1 hi
+    exact ⟨Nat.lt_of_lt_of_le h1 h.le, h.not_hosted_of_not_hosted h1 h2⟩
+  · obtain ⟨n, hn', x, hx, hxs, hxi⟩ := mem_outUIdx.1 hi
+    have hlt := hb.idx_lt n x hx
+    have hfl := h.flushed hb hnd ho hn' hx (by rw [hxs]; simp)
+    rw [hxi] at hlt hfl
+    exact ⟨Nat.lt_of_lt_of_le hlt h.le, hfl⟩
+
+/-- if the retirement counter has reached the number of entered instructions (and is bounded as in `RouteInv`),
+everything still hosted sits unstalled at the output boundary -/
+theorem all_retiring_of_le {p : Proc N} (hn : (p.allUnits.map (·.name)).Nodup) {e : Nat} {u : Util N}
+    (hb : RowBase p e u) (hnd : RowND u) (hle : e ≤ (goneIdx p u e).length + countOut p.outBoundary u) :
+    ∀ n x, x ∈ u.get n → n ∈ p.outBoundary ∧ x.st = .U := by
+  rw [countOut_eq_length, ← List.length_append] at hle
+  have hsub : ∀ a ∈ goneIdx p u e ++ outUIdx p.outBoundary u, a ∈ List.range e := by
+    intro a ha
+    rw [List.mem_range]
+    rcases List.mem_append.1 ha with ha | ha
+    · exact ((mem_goneIdx hb).1 ha).1
+    · obtain ⟨n, _, x, hx, _, hxi⟩ := mem_outUIdx.1 ha
+      rw [← hxi]; exact hb.idx_lt n x hx
+  have hall := mem_of_nodup_subset_of_length_ge (gone_outU_nodup hn hb hnd e) hsub (by simpa using hle)
+  intro n x hx
+  have := hall x.idx (List.mem_range.2 (hb.idx_lt n x hx))
+  rcases List.mem_append.1 this with h1 | h1
+  · exact absurd (List.mem_map.2 ⟨x, hx, rfl⟩) (((mem_goneIdx hb).1 h1).2 n)
+  · obtain ⟨n', hn', x', hx', hxs', hxi'⟩ := mem_outUIdx.1 h1
+    have e1 : n' = n := hnd.unique_host n' n x.idx (List.mem_map.2 ⟨x', hx', hxi'⟩) (List.mem_map.2 ⟨x, hx, rfl⟩)
+    subst e1
+    have : x' = x := eq_of_key_eq_of_nodup (fun h : HI => h.idx) (hnd.nodup_unit n') hx' hx hxi'
+    subst this
+    exact ⟨hn', hxs'⟩
+
+end accounting
+
+/-! ## 5. The state invariant and its lifting to diagrams -/
+
+section chain
+omit [LT N] [DecidableRel (α := N) (· < ·)]
+
+/-- the two-row relation together with the row invariants of both records -/
+structure StepB (p : Proc N) (prog : List (Instr N)) (e : Nat) (old new : Util N) (e' : Nat) : Prop
+    extends Step p prog e old new e' where
+  oldBase : RowBase p e old
+  oldND : RowND old
+  newBase : RowBase p e' new
+  newND : RowND new
+
+/-- `ChainE p prog e' table`: the newest-first `table` was recorded by cycles related by `StepB`, the entered counter
+going from `0` to `e'` -/
+def ChainE (p : Proc N) (prog : List (Instr N)) : Nat → List (Util N) → Prop
+  | e', [] => e' = 0
+  | e', r :: rest => ∃ e, StepB p prog e (rest.head?.getD ([] : List (N × List HI))) r e' ∧ ChainE p prog e rest
+
+omit [DecidableEq N] in
+theorem head?_getD_eq_reverse_getD (table : List (Util N)) :
+    table.head?.getD ([] : List (N × List HI)) =
+      table.reverse.getD (table.length - 1) ([] : List (N × List HI)) := by
+  cases table with
+  | nil => rfl
+  | cons r rest =>
+    simp only [List.head?_cons, Option.getD_some, List.reverse_cons, List.length_cons, Nat.add_sub_cancel,
+      List.getD_eq_getElem?_getD]
+    rw [List.getElem?_append_right (by simp)]
+    simp
+
+omit [DecidableEq N] in
+theorem getD_reverse_cons_lt (r : Util N) (rest : List (Util N)) {t : Nat} (h : t < rest.length) :
+    (r :: rest).reverse.getD t ([] : List (N × List HI)) = rest.reverse.getD t ([] : List (N × List HI)) := by
+  simp only [List.reverse_cons, List.getD_eq_getElem?_getD]
+  rw [List.getElem?_append_left (by simpa using h)]
+
+omit [DecidableEq N] in
+theorem getD_reverse_cons_last (r : Util N) (rest : List (Util N)) :
+    (r :: rest).reverse.getD rest.length ([] : List (N × List HI)) = r := by
+  simp only [List.reverse_cons, List.getD_eq_getElem?_getD]
+  rw [List.getElem?_append_right (by simp)]
+  simp
+
+omit [DecidableEq N] in
+theorem prevRow_reverse_cons_le (r : Util N) (rest : List (Util N)) {t : Nat} (h : t ≤ rest.length) :
+    prevRow (r :: rest).reverse t = prevRow rest.reverse t := by
+  unfold prevRow
+  by_cases h0 : t = 0
+  · simp [h0]
+  · rw [if_neg h0, if_neg h0]
+    exact getD_reverse_cons_lt r rest (by omega)
+
+omit [DecidableEq N] in
+theorem prevRow_reverse_cons_last (r : Util N) (rest : List (Util N)) :
+    prevRow (r :: rest).reverse rest.length = rest.head?.getD ([] : List (N × List HI)) := by
+  rw [prevRow_reverse_cons_le r rest (Nat.le_refl _), head?_getD_eq_reverse_getD]
+  unfold prevRow
+  cases rest with
+  | nil => rfl
+  | cons r' rest' => simp
+
+/-- the entered counters as a function of the row number: `E t` instructions had entered before cycle `t` -/
+theorem ChainE.toFun {p : Proc N} {prog : List (Instr N)} :
+    ∀ {table : List (Util N)} {e' : Nat}, ChainE p prog e' table →
+      ∃ E : Nat → Nat, E 0 = 0 ∧ E table.length = e' ∧
+        ∀ t, t < table.length →
+          StepB p prog (E t) (prevRow table.reverse t) (table.reverse.getD t ([] : List (N × List HI))) (E (t + 1))
+  | [], e', h => ⟨fun _ => 0, rfl, by simpa [ChainE] using h.symm, fun t ht => by simp at ht⟩
+  | r :: rest, e', h => by
+    obtain ⟨e, hstep, hch⟩ := h
+    obtain ⟨E0, h0, hlast, hall⟩ := ChainE.toFun hch
+    have hE1 : ∀ t, t ≤ rest.length → (fun t => if t ≤ rest.length then E0 t else e') t = E0 t :=
+      fun t ht => if_pos ht
+    have hE2 : (fun t => if t ≤ rest.length then E0 t else e') (rest.length + 1) = e' := if_neg (by omega)
+    refine ⟨fun t => if t ≤ rest.length then E0 t else e', by rw [hE1 0 (Nat.zero_le _)]; exact h0, hE2, ?_⟩
+    intro t ht
+    simp only [List.length_cons] at ht
+    by_cases hlt : t < rest.length
+    · rw [hE1 t (by omega), hE1 (t + 1) (by omega), getD_reverse_cons_lt r rest hlt,
+        prevRow_reverse_cons_le r rest (by omega)]
+      exact hall t hlt
+    · have ht' : t = rest.length := by omega
+      subst ht'
+      rw [hE1 _ (Nat.le_refl _), hE2, hlast, getD_reverse_cons_last, prevRow_reverse_cons_last]
+      exact hstep
+
+end chain
+
+/-- **State invariant of the route proofs**: the core invariant, the chain of two-row relations over the recorded
+table, and the bound on the retirement counter. -/
+structure RouteInv (p : Proc N) (prog : List (Instr N)) (s : SimState N) : Prop extends CoreInv p prog s where
+  chain : ChainE p prog s.entered s.table
+  exit : s.exited ≤ (goneIdx p s.util s.entered).length + countOut p.outBoundary s.util
+
+omit [LT N] [DecidableRel (α := N) (· < ·)] in
+theorem RouteInv.init (p : Proc N) (prog : List (Instr N)) : RouteInv p prog (initState prog) :=
+  ⟨CoreInv.init p prog, rfl, Nat.zero_le _⟩
+
+theorem RouteInv.step_wf {p : Proc N} {prog : List (Instr N)} (hwf : wfProc p = true) {s s' : SimState N}
+    (h : RouteInv p prog s) (hs : runCycle p prog s = .ok (some s')) : RouteInv p prog s' := by
+  have hc := h.toCoreInv.step_wf hwf hs
+  have hst := runCycle_step hwf h.toCoreInv hs
+  have hg := gone_step (wfProc_nodup_names hwf) (wfProc_orderOK hwf) hst h.row h.nd hc.row
+  have hex := h.exit
+  obtain ⟨lab, qs, hlab, _, _, rfl⟩ := runCycle_eq_some hs
+  refine ⟨hc, ⟨s.entered, ?_, h.chain⟩, ?_⟩
+  · rw [← h.util_eq]
+    exact ⟨hst, h.row, h.nd, hc.row, hc.nd⟩
+  · simp only at hg ⊢
+    omega
+
+theorem Diagram_RouteInv {p : Proc N} {prog : List (Instr N)} (hwf : wfProc p = true)
+    {tbl : List (Util N)} {stalled : Bool} (h : Diagram p prog tbl stalled) :
+    ∃ s, RouteInv p prog s ∧ tbl = s.table.reverse ∧ (stalled = true → runCycle p prog s = .ok none) ∧
+      (stalled = false → s.finished prog = true) :=
+  simulate_induction (RouteInv p prog) (RouteInv.init p prog) (fun _ _ hs hr => hs.step_wf hwf hr) tbl stalled h
+
+/-- **Routes of a diagram.** There are entered counters `E t` (`E 0 = 0`, non-decreasing, `E T ≤` program length)
+such that every recorded cycle `t` is related to the cycle before by `StepB … (E t) … (E (t+1))`; a returned diagram
+has `E T =` program length and its last cycle hosts only unstalled instructions in output-boundary ports. -/
+theorem Diagram_route {p : Proc N} {prog : List (Instr N)} (hwf : wfProc p = true)
+    {tbl : List (Util N)} {stalled : Bool} (h : Diagram p prog tbl stalled) :
+    ∃ E : Nat → Nat, E 0 = 0 ∧ E tbl.length ≤ prog.length ∧
+      (∀ t, t < tbl.length →
+        StepB p prog (E t) (prevRow tbl t) (tbl.getD t ([] : List (N × List HI))) (E (t + 1))) ∧
+      (stalled = false → E tbl.length = prog.length ∧
+        ∀ n x, x ∈ (tbl.getD (tbl.length - 1) ([] : List (N × List HI))).get n → n ∈ p.outBoundary ∧ x.st = .U) := by
+  obtain ⟨s, hs, rfl, _, hfin⟩ := Diagram_RouteInv hwf h
+  obtain ⟨E, h0, hlast, hall⟩ := hs.chain.toFun
+  refine ⟨E, h0, ?_, ?_, ?_⟩
+  · rw [List.length_reverse, hlast]; exact hs.entered_le
+  · intro t ht; exact hall t (by simpa using ht)
+  · intro hst
+    have hf := hfin hst
+    simp only [SimState.finished, Bool.not_eq_true', Bool.or_eq_false_iff, decide_eq_false_iff_not,
+      Nat.not_lt] at hf
+    have hle := hs.entered_le
+    refine ⟨by rw [List.length_reverse, hlast]; omega, ?_⟩
+    rw [List.length_reverse, ← head?_getD_eq_reverse_getD, ← hs.util_eq]
+    exact all_retiring_of_le (wfProc_nodup_names hwf) hs.row hs.nd (by have := hs.exit; omega)
+
 end ProcSim
